@@ -278,29 +278,54 @@ def tie_side(pid, fn_status, res):
             if rs not in res["lost_translation"]: res["lost_translation"].append(rs)
     if not todo: return built
     ok, out = jl.lake_build(sorted({"JL.Tie." + tie_module(rs) for rs in todo}))
-    failed = set(re.findall(r"✖ \[\d+/\d+\] Building JL\.Tie\.(\w+)", out))
     gen_failed = re.search(r"✖ \[\d+/\d+\] Building JL\.(Generated\.Fns|Rs)\b", out) is not None
+    failed = set()
+    # tie modules of functions that left the translated subset cannot be stated any more; whatever imports them is not re-checked either
+    lost_mods = {tie_module(rs) for rs, st in fn_status.items() if not st.get("translated")}
+    status_of = {}
+    if not gen_failed:
+        for tm in sorted({tie_module(rs) for rs in todo}):
+            if ok:
+                status_of[tm] = ("proved", "")
+                continue
+            ok1, out1 = jl.lake_build(["JL.Tie." + tm])          # (the bulk build above did the work; this only tells the modules apart)
+            if ok1:
+                status_of[tm] = ("proved", "")
+                continue
+            own = re.search(r"error: JL/Tie/%s\.lean:(\d+):\d+: ([^\n]*)" % re.escape(tm), out1)
+            roots = set(re.findall(r"✖ \[\d+/\d+\] Building JL\.Tie\.(\w+)", out1)) - {tm}
+            if own and not (roots and roots <= lost_mods):
+                status_of[tm] = ("broken", own.group(2)[:160]); failed.add(tm)
+            elif roots and roots <= lost_mods:
+                status_of[tm] = ("lost-dep", ", ".join(sorted(roots)))
+            elif roots:
+                status_of[tm] = ("dep", ", ".join(sorted(roots)))
+            else:
+                status_of[tm] = ("broken", "see build log: " + out1[-200:].replace("\n", " ")); failed.add(tm)
     for rs in todo:
         st = mine[rs]
         tm = tie_module(rs)
+        kind, detail = status_of.get(tm, ("gen", ""))
         if gen_failed:
             res["tie_functions"][rs] = "generated definitions do not build"
-        elif tm in failed:
-            m = re.search(r"error: JL/Tie/%s\.lean:(\d+):\d+: ([^\n]*)" % re.escape(tm), out)
+        elif kind == "broken":
             res["tie_functions"][rs] = "BROKEN"
             res["problems"].append("tie theorem JL.Tie.%s no longer checks: `%s` in %s, as translated from the current source, is not provably the model's `%s` any more (%s)"
-                                   % (tm, rs, st.get("file", "?"), st.get("model", "?"), (m.group(2)[:160] if m else "see build log")))
+                                   % (tm, rs, st.get("file", "?"), st.get("model", "?"), detail or "see build log"))
             res.setdefault("broken_ties", []).append(rs)
-        elif not ok and not os.path.exists(os.path.join(jl.LEAN, ".lake", "build", "lib", "lean", "JL", "Tie", tm + ".olean")):
-            # did not build because something it imports failed: report against the root failure only
-            res["tie_functions"][rs] = "not re-checked (a tie theorem it depends on is broken)"
+        elif kind == "lost-dep":
+            res["tie_functions"][rs] = "not re-checked: its tie theorem rests on that of a function that left the translated subset (%s)" % detail
+            if rs not in res["lost_translation"]: res["lost_translation"].append(rs)
+        elif kind == "dep":
+            # did not build because something it imports failed: reported against the root failure (by the properties that function backs)
+            res["tie_functions"][rs] = "not re-checked (a tie theorem it depends on is broken: %s)" % detail
             res.setdefault("broken_ties", []).append(rs)
         else:
             res["tie_functions"][rs] = "proved"
             if tm not in built: built.append(tm)
     if gen_failed:
         res["problems"].append("lean/JL/Generated/Fns.lean (translated function bodies) does not build: " + out[-600:])
-    if not ok and not failed and not gen_failed:
+    if not ok and not gen_failed and not status_of:
         res["problems"].append("tie theorems could not be built: " + out[-600:])
     return built
 
